@@ -7,6 +7,7 @@ package main
 // http.ServeMux registration and dispatch.
 
 import (
+	"net/url"
 	pathpkg "path"
 	"fmt"
 	"go/types"
@@ -108,7 +109,57 @@ func (e *Engine) unescapePath(seg *Term) *Term {
 	return nil
 }
 
+// unescapeCall models url.PathUnescape / url.QueryUnescape on arbitrary text: the inverse of
+// the escaping functions on tagged text; the identity on text without '%' (and, for the query
+// flavour, without '+'); otherwise it succeeds exactly when every '%' is followed by two hex
+// digits, and then yields some strictly shorter text (each escape shrinks by two).
+func (e *Engine) unescapeCall(x *Term, query bool) Value {
+	okv := func(t *Term) Value { return Tuple{t, Iface{}} }
+	if x.Const {
+		var r string
+		var err error
+		if query {
+			r, err = url.QueryUnescape(x.SVal)
+		} else {
+			r, err = url.PathUnescape(x.SVal)
+		}
+		if err != nil {
+			return Tuple{mkStr(""), e.newErrorString(mkStr("invalid URL escape"))}
+		}
+		return okv(mkStr(r))
+	}
+	if x.EscOf != nil && ((x.EscKind == "query") == query) {
+		return okv(x.EscOf)
+	}
+	if !query && x.EscOf != nil {
+		return okv(e.unescapePath(x))
+	}
+	plain := Not(strContains(x, mkStr("%")))
+	if query {
+		plain = And(plain, Not(strContains(x, mkStr("+"))))
+	}
+	if e.decide(plain) {
+		return okv(x)
+	}
+	if query && !e.decide(strContains(x, mkStr("%"))) {
+		return okv(strReplaceAll(x, mkStr("+"), mkStr(" ")))
+	}
+	if !e.decide(mustInRe(e, x, `([^%]|%[0-9a-fA-F][0-9a-fA-F])*`)) {
+		return Tuple{mkStr(""), e.newErrorString(mkStr("invalid URL escape"))}
+	}
+	e.usedFresh = true
+	r := e.freshStr("unescaped", x.MaxLen)
+	e.addPC(intLt(strLenInt(r), strLenInt(x)))
+	return okv(r)
+}
+
 func init() {
+	reg("net/url.PathUnescape", func(e *Engine, fn *ssa.Function, a []Value, s ssa.Instruction) Value {
+		return e.unescapeCall(T(a[0]), false)
+	})
+	reg("net/url.QueryUnescape", func(e *Engine, fn *ssa.Function, a []Value, s ssa.Instruction) Value {
+		return e.unescapeCall(T(a[0]), true)
+	})
 	reg("net/url.PathEscape", func(e *Engine, fn *ssa.Function, a []Value, s ssa.Instruction) Value {
 		return e.escape(T(a[0]), "path")
 	})
